@@ -296,6 +296,7 @@ def run(ctx):
         # Move { use_rename: false }, execute goes straight to move_copy — the lock probe must precede that path too
         ops = A.OPS + ["move_copy"]
         plan = [(n, False, op) for n in (2, 3, 4) for op in ops] + [(3, True, op) for op in ops]
+        plan += [(14 + k, False, op) for k, op in enumerate(["remove", "link", "move"])]
         if not ctx.quick:
             plan += [(4, True, op) for op in ops]
 
@@ -308,9 +309,13 @@ def run(ctx):
         groups = scn.make_report(env["fclones"])
         victims = ["b/v%d" % i for i in range(1, n)]
         subsets = []
-        for mask in range(1 << len(victims)):
-            subsets.append([v for i, v in enumerate(victims) if mask >> i & 1])
-        subsets.append(["a/k0"])                       # the retained file is never probed
+        if n > 6:
+            # MANY locked victims in one run (more failures than any "log only the first N" budget): each one is refused AND named
+            subsets = [victims[:-1], victims[1:], victims]
+        else:
+            for mask in range(1 << len(victims)):
+                subsets.append([v for i, v in enumerate(victims) if mask >> i & 1])
+            subsets.append(["a/k0"])                       # the retained file is never probed
         if ctx.replay:
             rp = json.load(open(ctx.replay))
             spec = {k: (tuple(v) if isinstance(v, list) else v) for k, v in (rp.get("fault") or {}).items()}
@@ -318,7 +323,7 @@ def run(ctx):
                                readonly=rp.get("readonly", ()), drop_caps=rp.get("drop_caps", False), api=rp.get("lock_api", "posix"), spec=spec)]
         out = []
         for sub in subsets:
-            for no_lock in (False, True):
+            for no_lock in ((False, True) if n <= 6 else (False,)):
                 out.append(run_locked(env, scn, op, sub, no_lock, groups))
         if n == 2 and not hl:
             # the foreign lock's byte range and mode: fclones locks the WHOLE file, so every one of them must conflict
@@ -345,7 +350,7 @@ def run(ctx):
                 for locked in ([], ["b/v1"]):
                     for no_lock in (False, True):
                         out.append(run_locked(env, scn, op, locked, no_lock, groups, kind="w", readonly=["b/v1"], drop_caps=True))
-        if n >= 3 and not hl:
+        if 3 <= n <= 6 and not hl:
             # "locking is not supported" (EOPNOTSUPP = ENOTSUP) reported for an EARLIER victim only (a file system without
             # advisory locks next to a normal one): that victim is processed without a lock (maybe_lock swallows Unsupported),
             # the LAST victim, locked by another process, must still be left alone - every call that names the earlier victim
